@@ -505,19 +505,21 @@ def attach_all(run, rt, delays=True):
     import cnvlib.segmentation as S
     import cnvlib.commands as CM
     from cnvlib.segmentation import haar, none, hmm
-    traced = [("segmentation.do_segmentation", S.do_segmentation), ("segmentation._do_segmentation", S._do_segmentation),
-              ("segmentation.transfer_fields", S.transfer_fields), ("segmentation.drop_outliers", S.drop_outliers),
-              ("none.segment_none", none.segment_none), ("haar.segment_haar", haar.segment_haar), ("haar.one_chrom", haar.one_chrom),
-              ("haar.haarSeg", haar.haarSeg), ("hmm.segment_hmm", hmm.segment_hmm)]
+    traced = [("segmentation.do_segmentation", rt.opt(S, "do_segmentation")), ("segmentation._do_segmentation", rt.opt(S, "_do_segmentation")),
+              ("segmentation.transfer_fields", rt.opt(S, "transfer_fields")), ("segmentation.drop_outliers", rt.opt(S, "drop_outliers")),
+              ("none.segment_none", rt.opt(none, "segment_none")), ("haar.segment_haar", rt.opt(haar, "segment_haar")), ("haar.one_chrom", rt.opt(haar, "one_chrom")),
+              ("haar.haarSeg", rt.opt(haar, "haarSeg")), ("hmm.segment_hmm", rt.opt(hmm, "segment_hmm"))]
     import cnvlib.segfilters as F
-    traced += [("segfilters.squash_by_groups", F.squash_by_groups), ("segfilters.squash_region", F.squash_region)]
+    traced += [("segfilters.squash_by_groups", rt.opt(F, "squash_by_groups")), ("segfilters.squash_region", rt.opt(F, "squash_region"))]
     rt.attach(haar, "segment_haar", name="haar.segment_haar[survivors]", pre=_pre_inner)
     rt.attach(none, "segment_none", name="none.segment_none[survivors]", pre=_pre_inner)
     rt.attach(hmm, "segment_hmm", name="hmm.segment_hmm[survivors]", pre=_pre_inner)
     rt.attach(S, "_do_segmentation", name="segmentation._do_segmentation[arm]", pre=pre_arm, post=post_arm, on_exc=exc_arm)
-    if delays:
+    if delays and hasattr(S, "_ds"):
         S._ds = make_ds_delay(S._ds, os.getpid())
         rt._ATTACHED.append((S, "_ds", S._ds.__vmon_orig__))
+    elif delays:
+        run.extra["injection-unavailable:segmentation._ds"] += 1      # pool entry point renamed: no delays, schedule quotas decide
     rt.attach(S, "do_segmentation", name="segmentation.do_segmentation", pre=pre_call, post=post_call, on_exc=exc_call,
               also=[(CM, "do_segmentation")])
     return traced
